@@ -1,5 +1,1040 @@
 import PyCliffordModel.Proofs.CircuitLemmas
-/-! # Proofs/CompileLemmas — helper lemmas for the compile-soundness theorems of C09/C10 -/
+import PyCliffordModel.Proofs.StateLemmas
+/-! # Proofs/CompileLemmas — helper lemmas for the compile-soundness theorems of C09/C10
+
+Embedding one more gate (through a mask disjoint from everything embedded so far) into a layer map, the fold
+`compileGates`, the fold `compileLayers`, the layer structure produced by `take`, and the uncompiled `backward`. -/
 namespace PC
 
+/-- a recorded backward map of a map gate, if any, is the inverse of its forward map. (The library only ever sets
+    `backward_map` to `forward_map.inverse()`; a gate object with an unrelated backward map is not a gate.) -/
+def Gate.BmapOK (g : Gate) : Prop :=
+  g.gen = none → ∀ B, g.bmap = some B → ∃ M, g.fmap = some M ∧ inverse M = some B
+
+namespace Cm
+open Tr Cp Ci
+
+/-! ## the commutation form through `scatter` -/
+
+theorem acqSum_scatter_scatter (m : List Bool) : ∀ (g h s t : PStr), m.length ≤ g.length → m.length ≤ h.length →
+    s.length = maskCount m → t.length = maskCount m →
+    acqSum (scatter m g s) (scatter m h t) + acqSum (gather m g) (gather m h) = acqSum g h + acqSum s t := by
+  induction m with
+  | nil =>
+    intro g h s t _ _ hs ht
+    have : s = [] := List.eq_nil_of_length_eq_zero (by simpa [maskCount] using hs)
+    subst this
+    simp only [scatter_nil_left, gather_nil_left, acqSum_nil_left]
+  | cons b ms ih =>
+    intro g h s t hg hh hs ht
+    cases g with
+    | nil => simp at hg
+    | cons q qs =>
+      cases h with
+      | nil => simp at hh
+      | cons r rs =>
+        have hg' : ms.length ≤ qs.length := by simpa using hg
+        have hh' : ms.length ≤ rs.length := by simpa using hh
+        cases b with
+        | false =>
+          rw [maskCount_cons_false] at hs ht
+          rw [scatter_cons_false, scatter_cons_false, gather_cons_false, gather_cons_false, acqSum_cons, acqSum_cons]
+          have := ih qs rs s t hg' hh' hs ht
+          omega
+        | true =>
+          rw [maskCount_cons_true] at hs ht
+          cases s with
+          | nil => simp at hs
+          | cons s0 ss =>
+            cases t with
+            | nil => simp at ht
+            | cons t0 ts =>
+              rw [scatter_cons_true_cons, scatter_cons_true_cons, gather_cons_true, gather_cons_true, acqSum_cons,
+                acqSum_cons, acqSum_cons, acqSum_cons]
+              have := ih qs rs ss ts hg' hh' (by simpa using hs) (by simpa using ht)
+              omega
+
+/-- a map applied through a mask preserves the commutation relations -/
+theorem transformMasked_acq (f : List Pauli) (m : List Bool) (hf : ValidMap f (maskCount m)) (P Q : Pauli)
+    (hP : m.length ≤ P.g.length) (hQ : m.length ≤ Q.g.length) :
+    acq (transformMasked f m P).g (transformMasked f m Q).g = acq P.g Q.g := by
+  have hfl : ∀ R ∈ f, R.g.length = maskCount m := fun R hR => (hf.2.1 R hR).1
+  have l1 := length_transform f _ hf.1 hfl ⟨gather m P.g, P.p⟩
+  have l2 := length_transform f _ hf.1 hfl ⟨gather m Q.g, Q.p⟩
+  have h := acqSum_scatter_scatter m P.g Q.g _ _ hP hQ l1 l2
+  have ha := transform_acq f _ hf ⟨gather m P.g, P.p⟩ ⟨gather m Q.g, Q.p⟩ (length_gather m P.g hP)
+    (length_gather m Q.g hQ)
+  simp only [transformMasked]
+  unfold acq at ha ⊢
+  simp only at ha
+  omega
+
+theorem length_transformMasked (f : List Pauli) (m : List Bool) (P : Pauli) :
+    (transformMasked f m P).g.length = P.g.length := by
+  simp only [transformMasked]; exact length_scatter _ _ _
+
+theorem transformMasked_hermitian (f : List Pauli) (m : List Bool) (hf : ValidMap f (maskCount m)) (P : Pauli)
+    (hP : m.length ≤ P.g.length) (hp : P.p % 2 = 0) : (transformMasked f m P).p % 2 = 0 := by
+  simp only [transformMasked]
+  exact transform_hermitian f _ hf ⟨gather m P.g, P.p⟩ (length_gather m P.g hP) hp
+
+theorem transformMasked_congr (f : List Pauli) (m : List Bool) {a b : Pauli} (h : PEq a b) :
+    PEq (transformMasked f m a) (transformMasked f m b) := by
+  rw [transformMasked_eq_maskedOp, transformMasked_eq_maskedOp]
+  exact maskedOp_congr (phaseLin_transform f) m h
+
+/-! ## a list of rows that acts as a symplectic, Hermitian action is a valid map -/
+
+theorem valid_of_act (M : List Pauli) (n : Nat) (T : Pauli → Pauli) (hlen : M.length = 2 * n)
+    (hl : ∀ R ∈ M, R.g.length = n)
+    (hT : ∀ P : Pauli, P.g.length = n → PEq (transform M P) (T P))
+    (hacq : ∀ P Q : Pauli, P.g.length = n → Q.g.length = n → acq (T P).g (T Q).g = acq P.g Q.g)
+    (hherm : ∀ P : Pauli, P.g.length = n → P.p % 2 = 0 → (T P).p % 2 = 0) : ValidMap M n := by
+  have hrow : ∀ i, i < 2 * n → PEq (rowAt M i) (T (rowAt (idMap n) i)) := by
+    intro i hi
+    have hiM : i < M.length := by rw [hlen]; exact hi
+    have lR := hl _ (rowAt_mem M i hiM)
+    rcases Nat.mod_two_eq_zero_or_one i with h0 | h1
+    · obtain ⟨k, rfl⟩ : ∃ k, i = 2 * k := ⟨i / 2, by omega⟩
+      have hk : k < n := by omega
+      rw [St.rowAt_idMap_X n k hk]
+      exact (transform_unitX M n k hlen hk lR).symm.trans (hT _ (length_unitX n k))
+    · obtain ⟨k, rfl⟩ : ∃ k, i = 2 * k + 1 := ⟨i / 2, by omega⟩
+      have hk : k < n := by omega
+      rw [St.rowAt_idMap_Z n k hk]
+      exact (transform_unitZ M n k hlen hk lR).symm.trans (hT _ (length_unitZ n k))
+  refine ⟨hlen, fun R hR => ⟨hl R hR, ?_⟩, fun i j hi hj => ?_⟩
+  · obtain ⟨r, hr, rfl⟩ := List.getElem_of_mem hR
+    have hr2 : r < 2 * n := by rw [← hlen]; exact hr
+    have e := hrow r hr2
+    rw [rowAt_of_lt M r hr] at e
+    have hh := hherm _ (rowAt_idMap n r hr2).1 (by rw [(rowAt_idMap n r hr2).2]; rfl)
+    have := e.2
+    omega
+  · rw [(hrow i hi).1, (hrow j hj).1, hacq _ _ (rowAt_idMap n i hi).1 (rowAt_idMap n j hj).1]
+    exact Sympl_idMap n i j (by rw [length_idMap]; exact hi) (by rw [length_idMap]; exact hj)
+
+/-! ## the action of `embed big small m`: the small map on the masked qubits, the big map on the others -/
+
+theorem transform_embed_split (F f : List Pauli) (m : List Bool) (P : Pauli)
+    (hFl : F.length = 2 * m.length) (hok : RowsOK m (mask2 m) F)
+    (hf : f.length = 2 * maskCount m) (hfr : ∀ R ∈ f, R.g.length = maskCount m) (hl : P.g.length = m.length) :
+    PEq (transform (embed F f m) P)
+      ⟨scatter m (transform F ⟨scatter m P.g (idStr (maskCount m)), 0⟩).g (transform f ⟨gather m P.g, 0⟩).g,
+        P.p + (transform f ⟨gather m P.g, 0⟩).p + (transform F ⟨scatter m P.g (idStr (maskCount m)), 0⟩).p⟩ := by
+  have hE : mapN (embedRows m (mask2 m) F f) = m.length := by
+    apply mapN_of_length
+    rw [length_embedRows, hFl]
+  have hJ0 : PEq ⟨idStr m.length, 0⟩ (J m ⟨idStr (maskCount m), 0⟩ ⟨idStr m.length, 0⟩) := by
+    refine ⟨?_, rfl⟩
+    show idStr m.length = scatter m (idStr m.length) (idStr (maskCount m))
+    rw [scatter_idStr_idStr]
+  have key := combineAux_embedRows m (mask2 m) F f (flat P.g) _ _ _ hok hfr
+    (by rw [count_mask2, hf]; exact Nat.le_refl _) (length_idStr _) (length_idStr _) hJ0
+  rw [selT_mask2, combineAux_selF m P.g _ _ hl] at key
+  have hp0 := p0Sum_gather_add m P.g
+  unfold transform combine embed
+  rw [hE, mapN_of_length f _ hf, mapN_of_length F _ hFl]
+  refine ⟨?_, ?_⟩
+  · show (combineAux (flat P.g) (embedRows m (mask2 m) F f) ⟨idStr m.length, 0⟩).g = _
+    rw [key.1]
+    rfl
+  · have k2 := key.2
+    simp only [J] at k2
+    simp only [p0] at k2 ⊢
+    omega
+
+/-- an action that does not look at, and does not write to, the qubits of `m` -/
+def OffMask (m : List Bool) (A : Pauli → Pauli) : Prop :=
+  ∀ (B s : PStr) (p : Int), A ⟨scatter m B s, p⟩ = ⟨scatter m (A ⟨B, p⟩).g s, (A ⟨B, p⟩).p⟩
+
+theorem offMask_id (m : List Bool) : OffMask m id := fun _ _ _ => rfl
+
+theorem offMask_maskedOp (f : Pauli → Pauli) (m m' : List Bool) (hd : maskDisj m' m = true) :
+    OffMask m (maskedOp f m') := by
+  intro B s p
+  simp only [maskedOp]
+  rw [gather_scatter_disj m' m B s hd, scatter_scatter_disj m' m B s _ hd]
+
+theorem offMask_comp (m : List Bool) (A A' : Pauli → Pauli) (h : OffMask m A) (h' : OffMask m A') :
+    OffMask m (fun P => A' (A P)) := by
+  intro B s p
+  show A' (A ⟨scatter m B s, p⟩) = _
+  rw [h B s p, h' _ s _]
+
+/-- **embedding one more gate**: if the layer map built so far acts as `A`, and `A` leaves the qubits of `m` alone,
+    then after `embed` the map acts as `A` followed by the small map through the mask -/
+theorem embed_acts (F f : List Pauli) (m : List Bool) (A : Pauli → Pauli)
+    (hFl : F.length = 2 * m.length) (hFr : ∀ R ∈ F, R.g.length = m.length) (hok : RowsOK m (mask2 m) F)
+    (hf : f.length = 2 * maskCount m) (hfr : ∀ R ∈ f, R.g.length = maskCount m)
+    (hA : ∀ P : Pauli, P.g.length = m.length → PEq (transform F P) (A P)) (hoff : OffMask m A)
+    (P : Pauli) (hl : P.g.length = m.length) :
+    PEq (transform (embed F f m) P) (transformMasked f m (A P)) := by
+  have hs := transform_embed_split F f m P hFl hok hf hfr hl
+  refine hs.trans ?_
+  -- the background operator
+  have hPr : (scatter m P.g (idStr (maskCount m))).length = m.length := by rw [length_scatter, hl]
+  have hAr := hA ⟨scatter m P.g (idStr (maskCount m)), P.p⟩ hPr
+  have hFr0 := transform_of_g_eq F ⟨scatter m P.g (idStr (maskCount m)), P.p⟩
+    ⟨scatter m P.g (idStr (maskCount m)), 0⟩ rfl
+  have hlg : (gather m P.g).length = maskCount m := length_gather m P.g (by rw [hl]; exact Nat.le_refl _)
+  -- `P` is its background with the masked part written back
+  have hP : P = ⟨scatter m (scatter m P.g (idStr (maskCount m))) (gather m P.g), P.p⟩ := by
+    rw [scatter_scatter m P.g _ _ hlg, scatter_gather]
+  have hAP : A P = ⟨scatter m (A ⟨scatter m P.g (idStr (maskCount m)), P.p⟩).g (gather m P.g),
+      (A ⟨scatter m P.g (idStr (maskCount m)), P.p⟩).p⟩ := by
+    conv => lhs; rw [hP]
+    exact hoff _ _ _
+  have hXl : (A ⟨scatter m P.g (idStr (maskCount m)), P.p⟩).g.length = m.length := by
+    rw [← hAr.1]; exact length_transform F _ hFl hFr _
+  have hgA : gather m (A P).g = gather m P.g := by
+    rw [hAP]; exact gather_scatter m _ _ (by rw [hXl]; exact Nat.le_refl _) hlg
+  have hf0 := transform_of_g_eq f ⟨gather m P.g, (A P).p⟩ ⟨gather m P.g, 0⟩ rfl
+  have hsl : (transform f ⟨gather m P.g, (A P).p⟩).g.length = maskCount m := length_transform f _ hf hfr _
+  have hAPp : (A P).p = (A ⟨scatter m P.g (idStr (maskCount m)), P.p⟩).p := by rw [hAP]
+  simp only [transformMasked]
+  rw [hgA]
+  refine ⟨?_, ?_⟩
+  · have hAPg : (A P).g = scatter m (A ⟨scatter m P.g (idStr (maskCount m)), P.p⟩).g (gather m P.g) := by
+      rw [hAP]
+    show scatter m _ _ = scatter m (A P).g _
+    rw [hAPg, scatter_scatter m _ _ _ hsl, hf0.1, ← hAr.1, hFr0.1]
+  · have a := hf0.2; have b := hFr0.2; have c := hAr.2
+    simp only at a b c ⊢
+    omega
+
+/-! ## the rows of `embed` -/
+
+theorem mem_embedRows (m : List Bool) (bs : List Bool) : ∀ (Rs small : List Pauli) (R : Pauli),
+    R ∈ embedRows m bs Rs small → R ∈ Rs ∨ ∃ R0 ∈ Rs, ∃ s ∈ small, R = ⟨scatter m R0.g s.g, s.p⟩ := by
+  induction bs with
+  | nil => intro Rs small R h; left; simpa [embedRows] using h
+  | cons b bs ih =>
+    intro Rs small R h
+    cases Rs with
+    | nil => simp [embedRows] at h
+    | cons R1 Rs =>
+      cases b with
+      | false =>
+        have e : embedRows m (false :: bs) (R1 :: Rs) small = R1 :: embedRows m bs Rs small := by simp [embedRows]
+        rw [e] at h
+        rcases List.mem_cons.1 h with rfl | h
+        · left; simp
+        · rcases ih Rs small R h with h | ⟨R0, h0, s, hs, rfl⟩
+          · left; simp [h]
+          · right; exact ⟨R0, by simp [h0], s, hs, rfl⟩
+      | true =>
+        cases small with
+        | nil =>
+          have e : embedRows m (true :: bs) (R1 :: Rs) [] = R1 :: embedRows m bs Rs [] := by simp [embedRows]
+          rw [e] at h
+          rcases List.mem_cons.1 h with rfl | h
+          · left; simp
+          · rcases ih Rs [] R h with h | ⟨R0, h0, s, hs, rfl⟩
+            · left; simp [h]
+            · right; exact ⟨R0, by simp [h0], s, hs, rfl⟩
+        | cons s0 ss =>
+          have e : embedRows m (true :: bs) (R1 :: Rs) (s0 :: ss) =
+              ⟨scatter m R1.g s0.g, s0.p⟩ :: embedRows m bs Rs ss := by simp [embedRows]
+          rw [e] at h
+          rcases List.mem_cons.1 h with rfl | h
+          · right; exact ⟨R1, by simp, s0, by simp, rfl⟩
+          · rcases ih Rs ss R h with h | ⟨R0, h0, s, hs, rfl⟩
+            · left; simp [h]
+            · right; exact ⟨R0, by simp [h0], s, by simp [hs], rfl⟩
+
+theorem length_rows_embed (F f : List Pauli) (m : List Bool) (n : Nat) (hFr : ∀ R ∈ F, R.g.length = n) :
+    ∀ R ∈ embed F f m, R.g.length = n := by
+  intro R hR
+  rcases mem_embedRows m (mask2 m) F f R hR with h | ⟨R0, h0, s, _, rfl⟩
+  · exact hFr R h
+  · show (scatter m R0.g s.g).length = n
+    rw [length_scatter]; exact hFr R0 h0
+
+theorem maskDisj_mask2 (m' m : List Bool) : maskDisj (mask2 m') (mask2 m) = maskDisj m' m := by
+  induction m' generalizing m with
+  | nil => rfl
+  | cons a as ih =>
+    cases m with
+    | nil => rfl
+    | cons b bs =>
+      rw [mask2_cons, mask2_cons, maskDisj_cons, maskDisj_cons, maskDisj_cons, ih bs]
+      cases a <;> cases b <;> simp
+
+/-- rows overwritten through `m` stay admissible for any mask `m'` that has no qubit in common with `m` -/
+theorem rowsOK_embedRows (m m' : List Bool) (hd : maskDisj m' m = true) : ∀ (bs' bs : List Bool)
+    (Rs small : List Pauli), maskDisj bs' bs = true → RowsOK m' bs' Rs → RowsOK m' bs' (embedRows m bs Rs small) := by
+  intro bs'
+  induction bs' with
+  | nil =>
+    intro bs Rs small _ h
+    cases Rs with
+    | nil => cases bs <;> simpa [embedRows] using h
+    | cons R Rs => simp [RowsOK] at h
+  | cons b' bs' ih =>
+    intro bs Rs small hdb h
+    cases Rs with
+    | nil => simp [RowsOK] at h
+    | cons R Rs =>
+      obtain ⟨⟨hRl, hRz⟩, hrest⟩ := h
+      cases bs with
+      | nil =>
+        have e : embedRows m [] (R :: Rs) small = R :: Rs := by simp [embedRows]
+        rw [e]
+        exact ⟨⟨hRl, hRz⟩, hrest⟩
+      | cons b bs =>
+        rw [maskDisj_cons, Bool.and_eq_true] at hdb
+        obtain ⟨hbb, hdb'⟩ := hdb
+        cases b with
+        | false =>
+          have e : embedRows m (false :: bs) (R :: Rs) small = R :: embedRows m bs Rs small := by simp [embedRows]
+          rw [e]
+          exact ⟨⟨hRl, hRz⟩, ih bs Rs small hdb' hrest⟩
+        | true =>
+          have hb' : b' = false := by cases b' <;> simp_all
+          subst hb'
+          cases small with
+          | nil =>
+            have e : embedRows m (true :: bs) (R :: Rs) [] = R :: embedRows m bs Rs [] := by simp [embedRows]
+            rw [e]
+            exact ⟨⟨hRl, hRz⟩, ih bs Rs [] hdb' hrest⟩
+          | cons s0 ss =>
+            have e : embedRows m (true :: bs) (R :: Rs) (s0 :: ss) =
+                ⟨scatter m R.g s0.g, s0.p⟩ :: embedRows m bs Rs ss := by simp [embedRows]
+            rw [e]
+            refine ⟨⟨?_, ?_⟩, ih bs Rs ss hdb' hrest⟩
+            · show (scatter m R.g s0.g).length = m'.length
+              rw [length_scatter]; exact hRl
+            · have hz : MaskedZero m' R.g := by simpa using hRz
+              show (if false = true then _ else MaskedZero m' (scatter m R.g s0.g))
+              simp only [Bool.false_eq_true, if_false]
+              unfold MaskedZero at hz ⊢
+              rw [gather_scatter_disj m' m R.g s0.g hd, hz]
+
+theorem rowsOK_embed (F f : List Pauli) (m m' : List Bool) (hd : maskDisj m' m = true)
+    (h : RowsOK m' (mask2 m') F) : RowsOK m' (mask2 m') (embed F f m) :=
+  rowsOK_embedRows m m' hd _ _ F f (by rw [maskDisj_mask2]; exact hd) h
+
+/-- the embedded map is valid -/
+theorem embed_valid (F f : List Pauli) (m : List Bool) (A : Pauli → Pauli)
+    (hF : ValidMap F m.length) (hok : RowsOK m (mask2 m) F) (hf : ValidMap f (maskCount m))
+    (hA : ∀ P : Pauli, P.g.length = m.length → PEq (transform F P) (A P)) (hoff : OffMask m A) :
+    ValidMap (embed F f m) m.length := by
+  have hFr : ∀ R ∈ F, R.g.length = m.length := fun R hR => (hF.2.1 R hR).1
+  have hfr : ∀ R ∈ f, R.g.length = maskCount m := fun R hR => (hf.2.1 R hR).1
+  have hAl : ∀ P : Pauli, P.g.length = m.length → (A P).g.length = m.length := fun P hP => by
+    rw [← (hA P hP).1]; exact length_transform F _ hF.1 hFr P
+  apply valid_of_act (embed F f m) m.length (fun P => transformMasked f m (A P))
+  · unfold embed; rw [length_embedRows, hF.1]
+  · exact length_rows_embed F f m _ hFr
+  · intro P hP
+    exact embed_acts F f m A hF.1 hFr hok hf.1 hfr hA hoff P hP
+  · intro P Q hP hQ
+    show acq (transformMasked f m (A P)).g (transformMasked f m (A Q)).g = _
+    rw [transformMasked_acq f m hf _ _ (by rw [hAl P hP]; exact Nat.le_refl _) (by rw [hAl Q hQ]; exact Nat.le_refl _),
+      ← (hA P hP).1, ← (hA Q hQ).1, transform_acq F _ hF P Q hP hQ]
+  · intro P hP hp
+    apply transformMasked_hermitian f m hf _ (by rw [hAl P hP]; exact Nat.le_refl _)
+    have h1 := transform_hermitian F _ hF P hP hp
+    have h2 := (hA P hP).2
+    omega
+
+/-! ## embedding a list of maps through pairwise disjoint masks -/
+
+def embedAll (F : CMap) : List (List Bool × CMap) → CMap
+  | [] => F
+  | x :: l => embedAll (embed F x.2 x.1) l
+def actAll : List (List Bool × CMap) → Pauli → Pauli
+  | [], P => P
+  | x :: l, P => actAll l (transformMasked x.2 x.1 P)
+
+theorem embedAll_sound (N : Nat) : ∀ (l : List (List Bool × CMap)) (F : CMap) (A : Pauli → Pauli),
+    (∀ x ∈ l, x.1.length = N ∧ ValidMap x.2 (maskCount x.1)) →
+    l.Pairwise (fun x y => maskDisj x.1 y.1 = true) →
+    ValidMap F N → (∀ P : Pauli, P.g.length = N → PEq (transform F P) (A P)) →
+    (∀ x ∈ l, OffMask x.1 A ∧ RowsOK x.1 (mask2 x.1) F) →
+    ValidMap (embedAll F l) N ∧ ∀ P : Pauli, P.g.length = N → PEq (transform (embedAll F l) P) (actAll l (A P)) := by
+  intro l
+  induction l with
+  | nil => intro F A _ _ hF hA _; exact ⟨hF, hA⟩
+  | cons x l ih =>
+    intro F A hx hp hF hA hinv
+    obtain ⟨hxl, hxf⟩ := hx x (by simp)
+    obtain ⟨hoff, hok⟩ := hinv x (by simp)
+    subst hxl
+    have hp' := List.pairwise_cons.1 hp
+    have hFr : ∀ R ∈ F, R.g.length = x.1.length := fun R hR => (hF.2.1 R hR).1
+    have hfr : ∀ R ∈ x.2, R.g.length = maskCount x.1 := fun R hR => (hxf.2.1 R hR).1
+    have hV := embed_valid F x.2 x.1 A hF hok hxf hA hoff
+    have hact := embed_acts F x.2 x.1 A hF.1 hFr hok hxf.1 hfr hA hoff
+    show ValidMap (embedAll (embed F x.2 x.1) l) _ ∧ ∀ P : Pauli, P.g.length = x.1.length →
+      PEq (transform (embedAll (embed F x.2 x.1) l) P) (actAll l (transformMasked x.2 x.1 (A P)))
+    apply ih (embed F x.2 x.1) (fun P => transformMasked x.2 x.1 (A P))
+      (fun y hy => hx y (by simp [hy])) hp'.2 hV hact
+    intro y hy
+    have hd : maskDisj x.1 y.1 = true := hp'.1 y hy
+    have hd' : maskDisj y.1 x.1 = true := by rw [maskDisj_comm]; exact hd
+    obtain ⟨hoffy, hoky⟩ := hinv y (by simp [hy])
+    refine ⟨?_, rowsOK_embed F x.2 x.1 y.1 hd' hoky⟩
+    apply offMask_comp y.1 A _ hoffy
+    have : transformMasked x.2 x.1 = maskedOp (transform x.2) x.1 := by
+      funext P; exact transformMasked_eq_maskedOp _ _ _
+    rw [this]
+    exact offMask_maskedOp _ y.1 x.1 hd
+
+/-- starting from the identity map -/
+theorem embedAll_idMap (N : Nat) (l : List (List Bool × CMap))
+    (hx : ∀ x ∈ l, x.1.length = N ∧ ValidMap x.2 (maskCount x.1))
+    (hp : l.Pairwise (fun x y => maskDisj x.1 y.1 = true)) :
+    ValidMap (embedAll (idMap N) l) N ∧
+      ∀ P : Pauli, P.g.length = N → PEq (transform (embedAll (idMap N) l) P) (actAll l P) := by
+  apply embedAll_sound N l (idMap N) id hx hp (validMap_idMap N) (fun P hP => transform_idMap N P hP)
+  intro x hxm
+  refine ⟨offMask_id _, ?_⟩
+  have := RowsOK_idMap x.1
+  rw [(hx x hxm).1] at this
+  exact this
+
+/-! ## compiling one gate -/
+
+theorem maskedOp_congr_fun (f f' : Pauli → Pauli) (m : List Bool) (P : Pauli)
+    (h : PEq (f ⟨gather m P.g, P.p⟩) (f' ⟨gather m P.g, P.p⟩)) : PEq (maskedOp f m P) (maskedOp f' m P) := by
+  refine ⟨?_, h.2⟩
+  simp only [maskedOp]; rw [h.1]
+
+/-- what `CliffordGate.compile()` produces for a well-formed gate: both maps, valid, acting as the gate and its inverse -/
+theorem gate_compile_spec (g : Gate) (N : Nat) (hg : g.WF N) (hb : g.BmapOK) :
+    ∃ g' f b, g.compile = .ok g' ∧ g'.fmap = some f ∧ g'.bmap = some b ∧
+      ValidMap f (maskCount (maskOf g.qubits N)) ∧ ValidMap b (maskCount (maskOf g.qubits N)) ∧
+      ∀ P : Pauli, P.g.length = N →
+        PEq (transformMasked f (maskOf g.qubits N) P) (gateAct g N P) ∧
+        PEq (transformMasked b (maskOf g.qubits N) P) (gateActInv g N P) := by
+  obtain ⟨_, hq, hn, hk⟩ := hg
+  have hk' : maskCount (maskOf g.qubits N) = g.n := maskCount_maskOf g.qubits N hn hq
+  rw [hk']
+  rcases hk with ⟨G, hgen, hGl, hGp⟩ | ⟨hgen, M, hM, hV⟩
+  · have hnp : (neg G).p % 2 = 0 := by simp only [neg]; omega
+    refine ⟨{ g with fmap := some (rotationMap G), bmap := some (rotationMap (neg G)) }, rotationMap G,
+      rotationMap (neg G), ?_, rfl, rfl, ?_, ?_, ?_⟩
+    · simp only [Gate.compile, hgen]
+    · rw [← hGl]; exact rotationMap_valid G hGp
+    · rw [← hGl]; exact rotationMap_valid (neg G) hnp
+    · intro P hP
+      have hlg : (gather (maskOf g.qubits N) P.g).length = g.n := by
+        rw [length_gather _ _ (by rw [length_maskOf, hP]; exact Nat.le_refl _), hk']
+      rw [gateAct_eq, gateActInv_eq, gateFun_gen g G hgen, gateFunInv_gen g G hgen, transformMasked_eq_maskedOp,
+        transformMasked_eq_maskedOp]
+      constructor
+      · exact maskedOp_congr_fun _ _ _ _ (rotationMap_acts_as_rotate G _ hGp (by rw [hGl]; exact hlg.symm))
+      · exact maskedOp_congr_fun _ _ _ _ (rotationMap_acts_as_rotate (neg G) _ hnp
+          (by show G.g.length = _; rw [hGl]; exact hlg.symm))
+  · obtain ⟨B, hB, hVB, -, -⟩ := inverse_spec M g.n hV
+    have hact : ∀ P : Pauli, P.g.length = N →
+        PEq (transformMasked M (maskOf g.qubits N) P) (gateAct g N P) ∧
+        PEq (transformMasked B (maskOf g.qubits N) P) (gateActInv g N P) := by
+      intro P _
+      constructor
+      · simp only [gateAct, hgen, hM]; exact PEq.refl _
+      · simp only [gateActInv, hgen, hM, hB]; exact PEq.refl _
+    cases hbm : g.bmap with
+    | none =>
+      refine ⟨{ g with bmap := some B }, M, B, ?_, hM, rfl, hV, hVB, hact⟩
+      simp only [Gate.compile, hgen, hM, hbm, hB]
+    | some B' =>
+      obtain ⟨M', hM', hB'⟩ := hb hgen B' hbm
+      rw [hM] at hM'
+      cases hM'
+      rw [hB] at hB'
+      cases hB'
+      refine ⟨g, M, B, ?_, hM, hbm, hV, hVB, hact⟩
+      simp only [Gate.compile, hgen, hM, hbm]
+
+/-! ## the fold of `CliffordLayer.compile` -/
+
+/-- `x = (mask, map)` is a compiled form of the action `act g` -/
+def Rel (N : Nat) (act : Gate → Pauli → Pauli) (g : Gate) (x : List Bool × CMap) : Prop :=
+  x.1 = maskOf g.qubits N ∧ ValidMap x.2 (maskCount x.1) ∧
+    ∀ P : Pauli, P.g.length = N → PEq (transformMasked x.2 x.1 P) (act g P)
+
+theorem actAll_congr (l : List (List Bool × CMap)) {a b : Pauli} (h : PEq a b) : PEq (actAll l a) (actAll l b) := by
+  induction l generalizing a b with
+  | nil => exact h
+  | cons x l ih => exact ih (transformMasked_congr x.2 x.1 h)
+
+theorem rel_items (N : Nat) (act : Gate → Pauli → Pauli) {gs : List Gate} {l : List (List Bool × CMap)}
+    (h : List.Forall₂ (Rel N act) gs l) : ∀ x ∈ l, x.1.length = N ∧ ValidMap x.2 (maskCount x.1) := by
+  induction h with
+  | nil => intro x hx; simp at hx
+  | cons hr _ ih =>
+    intro x hx
+    rcases List.mem_cons.1 hx with rfl | hx
+    · exact ⟨by rw [hr.1, length_maskOf], hr.2.1⟩
+    · exact ih x hx
+
+theorem rel_mask (N : Nat) (act : Gate → Pauli → Pauli) {gs : List Gate} {l : List (List Bool × CMap)}
+    (h : List.Forall₂ (Rel N act) gs l) : ∀ x ∈ l, ∃ g ∈ gs, x.1 = maskOf g.qubits N := by
+  induction h with
+  | nil => intro x hx; simp at hx
+  | cons hr _ ih =>
+    intro x hx
+    rcases List.mem_cons.1 hx with rfl | hx
+    · exact ⟨_, by simp, hr.1⟩
+    · obtain ⟨g, hg, e⟩ := ih x hx
+      exact ⟨g, by simp [hg], e⟩
+
+theorem rel_pairwise (N : Nat) (act : Gate → Pauli → Pauli) {gs : List Gate} {l : List (List Bool × CMap)}
+    (h : List.Forall₂ (Rel N act) gs l) (hp : gs.Pairwise (fun g h => g.indep h = true)) :
+    l.Pairwise (fun x y => maskDisj x.1 y.1 = true) := by
+  induction h with
+  | nil => exact List.Pairwise.nil
+  | cons hr hrest ih =>
+    have hp' := List.pairwise_cons.1 hp
+    refine List.pairwise_cons.2 ⟨?_, ih hp'.2⟩
+    intro y hy
+    obtain ⟨g', hg', e⟩ := rel_mask N act hrest y hy
+    rw [hr.1, e]
+    exact maskDisj_maskOf _ _ N (hp'.1 g' hg')
+
+theorem rel_actAll (N : Nat) (act : Gate → Pauli → Pauli) (hlen : ∀ g P, (act g P).g.length = P.g.length)
+    {gs : List Gate} {l : List (List Bool × CMap)} (h : List.Forall₂ (Rel N act) gs l) :
+    ∀ P : Pauli, P.g.length = N → PEq (actAll l P) (gs.foldl (fun Q g => act g Q) P) := by
+  induction h with
+  | nil => intro P _; exact PEq.refl _
+  | cons hr _ ih =>
+    intro P hP
+    rw [List.foldl_cons]
+    exact (actAll_congr _ (hr.2.2 P hP)).trans (ih _ (by rw [hlen]; exact hP))
+
+/-- a layer map built by embedding compiled forms of pairwise independent gates into the identity map -/
+theorem layer_fold (N : Nat) (act : Gate → Pauli → Pauli) (hlen : ∀ g P, (act g P).g.length = P.g.length)
+    (gs : List Gate) (l : List (List Bool × CMap)) (h : List.Forall₂ (Rel N act) gs l)
+    (hp : gs.Pairwise (fun g h => g.indep h = true)) :
+    ValidMap (embedAll (idMap N) l) N ∧
+      ∀ P : Pauli, P.g.length = N → PEq (transform (embedAll (idMap N) l) P) (gs.foldl (fun Q g => act g Q) P) := by
+  obtain ⟨hV, hact⟩ := embedAll_idMap N l (rel_items N act h) (rel_pairwise N act h hp)
+  exact ⟨hV, fun P hP => (hact P hP).trans (rel_actAll N act hlen h P hP)⟩
+
+theorem compileGates_spec (N : Nat) : ∀ (gs gs' : List Gate) (F B F' B' : CMap),
+    (∀ g ∈ gs, g.WF N ∧ g.BmapOK) → compileGates N gs F B = .ok (gs', F', B') →
+    ∃ lf lb, F' = embedAll F lf ∧ B' = embedAll B lb ∧
+      List.Forall₂ (Rel N (fun g => gateAct g N)) gs lf ∧ List.Forall₂ (Rel N (fun g => gateActInv g N)) gs lb := by
+  intro gs
+  induction gs with
+  | nil =>
+    intro gs' F B F' B' _ h
+    simp only [compileGates] at h
+    cases h
+    exact ⟨[], [], rfl, rfl, List.Forall₂.nil, List.Forall₂.nil⟩
+  | cons g gs ih =>
+    intro gs' F B F' B' hw h
+    obtain ⟨hg, hb⟩ := hw g (by simp)
+    obtain ⟨g', f, b, hc, hf, hbm, hVf, hVb, hact⟩ := gate_compile_spec g N hg hb
+    have hmask := qMask_eq g.qubits N hg.1 hg.2.1
+    unfold compileGates at h
+    rw [hc] at h
+    simp only [hmask, hf, hbm] at h
+    cases hrec : compileGates N gs (embed F f (maskOf g.qubits N)) (embed B b (maskOf g.qubits N)) with
+    | error e => rw [hrec] at h; cases h
+    | ok r =>
+      obtain ⟨gs'', F'', B''⟩ := r
+      rw [hrec] at h
+      cases h
+      obtain ⟨lf, lb, e1, e2, r1, r2⟩ := ih gs'' _ _ F' B' (fun x hx => hw x (by simp [hx])) hrec
+      refine ⟨(maskOf g.qubits N, f) :: lf, (maskOf g.qubits N, b) :: lb, e1, e2,
+        List.Forall₂.cons ⟨rfl, hVf, fun P hP => (hact P hP).1⟩ r1,
+        List.Forall₂.cons ⟨rfl, hVb, fun P hP => (hact P hP).2⟩ r2⟩
+
+/-! ## inverse gates of a layer in either order -/
+
+theorem gateActInv_comm (g h : Gate) (N : Nat) (P : Pauli) (hd : g.indep h = true) :
+    PEq (gateActInv g N (gateActInv h N P)) (gateActInv h N (gateActInv g N P)) := by
+  simp only [gateActInv_eq]
+  exact maskedOp_comm (phaseLin_gateFunInv g) (phaseLin_gateFunInv h) _ _ (maskDisj_maskOf g h N hd) P
+
+/-- the inverse gates applied in list order (what `CliffordLayer.backward` and the compiled backward map do) -/
+def fwdInv (gs : List Gate) (N : Nat) (P : Pauli) : Pauli := gs.foldl (fun Q g => gateActInv g N Q) P
+
+theorem fwdInv_cons (g : Gate) (gs : List Gate) (N : Nat) (P : Pauli) :
+    fwdInv (g :: gs) N P = fwdInv gs N (gateActInv g N P) := rfl
+
+theorem length_fwdInv (gs : List Gate) (N : Nat) (P : Pauli) : (fwdInv gs N P).g.length = P.g.length := by
+  induction gs generalizing P with
+  | nil => rfl
+  | cons g gs ih => rw [fwdInv_cons, ih, length_gateActInv]
+
+theorem seqActInv_bubble (g : Gate) (gs : List Gate) (N : Nat) (P : Pauli) (hB : ∀ h ∈ gs, g.indep h = true) :
+    PEq (seqActInv gs N (gateActInv g N P)) (gateActInv g N (seqActInv gs N P)) := by
+  induction gs with
+  | nil => exact PEq.refl _
+  | cons h gs ih =>
+    rw [seqActInv_cons, seqActInv_cons]
+    refine (gateActInv_congr h N (ih fun x hx => hB x (by simp [hx]))).trans ?_
+    exact (gateActInv_comm g h N _ (hB h (by simp))).symm
+
+/-- for pairwise independent gates the order of the inverse gates is immaterial -/
+theorem fwdInv_eq_seqActInv (gs : List Gate) (N : Nat) (P : Pauli)
+    (hp : gs.Pairwise (fun g h => g.indep h = true)) : PEq (fwdInv gs N P) (seqActInv gs N P) := by
+  induction gs generalizing P with
+  | nil => exact PEq.refl _
+  | cons g gs ih =>
+    have hp' := List.pairwise_cons.1 hp
+    rw [fwdInv_cons, seqActInv_cons]
+    exact (ih _ hp'.2).trans (seqActInv_bubble g gs N P hp'.1)
+
+/-- **compiling a layer** -/
+theorem layer_compile_sound (N : Nat) (gs gs' : List Gate) (F B : CMap)
+    (hw : ∀ g ∈ gs, g.WF N ∧ g.BmapOK) (hp : gs.Pairwise (fun g h => g.indep h = true))
+    (hc : compileGates N gs (idMap N) (idMap N) = .ok (gs', F, B)) :
+    ValidMap F N ∧ ValidMap B N ∧
+    (∀ P : Pauli, P.g.length = N → PEq (transform F P) (seqAct gs N P) ∧ PEq (transform B P) (seqActInv gs N P)) := by
+  obtain ⟨lf, lb, rfl, rfl, r1, r2⟩ := compileGates_spec N gs gs' _ _ F B hw hc
+  obtain ⟨hV1, ha1⟩ := layer_fold N (fun g => gateAct g N) (fun g P => length_gateAct g N P) gs lf r1 hp
+  obtain ⟨hV2, ha2⟩ := layer_fold N (fun g => gateActInv g N) (fun g P => length_gateActInv g N P) gs lb r2 hp
+  exact ⟨hV1, hV2, fun P hP => ⟨ha1 P hP, (ha2 P hP).trans (fwdInv_eq_seqActInv gs N P hp)⟩⟩
+
+/-! ## the fold of `CliffordCircuit.compile` -/
+
+/-- a gate layer as `take` builds it: no compiled maps, gates pairwise independent -/
+def LayerP (L : Layer) : Prop := ∃ gs, L = .gates gs none none ∧ gs.Pairwise (fun g h => g.indep h = true)
+
+theorem seqActInv_append (as bs : List Gate) (N : Nat) (P : Pauli) :
+    seqActInv (as ++ bs) N P = seqActInv as N (seqActInv bs N P) := by
+  unfold seqActInv; rw [List.foldr_append]
+
+theorem compileLayers_spec (N : Nat) : ∀ (Ls Ls' : List Layer) (F0 B0 F' B' : CMap),
+    (∀ L ∈ Ls, LayerP L) → (∀ g ∈ flatGates Ls, g.WF N ∧ g.BmapOK) → ValidMap F0 N → ValidMap B0 N →
+    compileLayers N Ls F0 B0 = .ok (Ls', F', B') →
+    ValidMap F' N ∧ ValidMap B' N ∧ ∀ P : Pauli, P.g.length = N →
+      PEq (transform F' P) (seqAct (flatGates Ls) N (transform F0 P)) ∧
+      PEq (transform B' P) (transform B0 (seqActInv (flatGates Ls) N P)) := by
+  intro Ls
+  induction Ls with
+  | nil =>
+    intro Ls' F0 B0 F' B' _ _ hF hB h
+    simp only [compileLayers] at h
+    cases h
+    exact ⟨hF, hB, fun P _ => ⟨PEq.refl _, PEq.refl _⟩⟩
+  | cons L Ls ih =>
+    intro Ls' F0 B0 F' B' hp hw hF hB h
+    obtain ⟨gs, rfl, hpw⟩ := hp L (by simp)
+    have hwg : ∀ g ∈ gs, g.WF N ∧ g.BmapOK := fun g hg => hw g (by rw [flatGates_cons]; simp [layerGates, hg])
+    have hwl : ∀ g ∈ flatGates Ls, g.WF N ∧ g.BmapOK := fun g hg => hw g (by rw [flatGates_cons]; simp [hg])
+    unfold compileLayers at h
+    cases hcg : compileGates N gs (idMap N) (idMap N) with
+    | error e => simp only [Layer.compile, hcg] at h; cases h
+    | ok r =>
+      obtain ⟨gs', f, b⟩ := r
+      simp only [Layer.compile, hcg] at h
+      obtain ⟨hVf, hVb, hact⟩ := layer_compile_sound N gs gs' f b hwg hpw hcg
+      cases hrec : compileLayers N Ls (compose F0 f) (compose b B0) with
+      | error e => rw [hrec] at h; cases h
+      | ok r2 =>
+        obtain ⟨Ls'', F'', B''⟩ := r2
+        rw [hrec] at h
+        cases h
+        obtain ⟨hV1, hV2, hrest⟩ := ih Ls'' _ _ F' B' (fun X hX => hp X (by simp [hX])) hwl
+          (compose_valid F0 f N hF hVf) (compose_valid b B0 N hVb hB) hrec
+        refine ⟨hV1, hV2, fun P hP => ?_⟩
+        obtain ⟨h1, h2⟩ := hrest P hP
+        have hlF0 : (transform F0 P).g.length = N :=
+          length_transform F0 N hF.1 (fun R hR => (hF.2.1 R hR).1) P
+        rw [flatGates_cons]
+        show PEq _ (seqAct (gs ++ flatGates Ls) N _) ∧ PEq _ (transform B0 (seqActInv (gs ++ flatGates Ls) N P))
+        rw [seqAct_append, seqActInv_append]
+        constructor
+        · refine h1.trans (seqAct_congr _ N ?_)
+          exact (compose_acts F0 f N hF hVf P hP).trans (hact _ hlF0).1
+        · refine h2.trans ?_
+          have hl : (seqActInv (flatGates Ls) N P).g.length = N := by rw [length_seqActInv]; exact hP
+          exact (compose_acts b B0 N hVb hB _ hl).trans (transform_congr B0 (hact _ hl).2)
+
+/-! ## the layers built by `take` -/
+
+theorem layerP_plain (L : Layer) (h : LayerP L) : PlainL L := by
+  obtain ⟨gs, rfl, _⟩ := h; exact ⟨gs, none, rfl⟩
+
+theorem layerP_append (L : Layer) (g : Gate) (h : LayerP L) (hi : L.indep g = true) : LayerP (L.append g) := by
+  obtain ⟨gs, rfl, hp⟩ := h
+  refine ⟨gs ++ [g], rfl, ?_⟩
+  rw [List.pairwise_append]
+  refine ⟨hp, List.pairwise_singleton _ _, ?_⟩
+  intro a ha b hb
+  simp only [List.mem_singleton] at hb
+  subst hb
+  simp only [Layer.indep, List.all_eq_true] at hi
+  exact hi a ha
+
+theorem takeRev_layerP (g : Gate) : ∀ (rest : List Layer) (L : Layer), L.indep g = true →
+    (∀ X ∈ L :: rest, LayerP X) → ∀ X ∈ takeRev (L :: rest) g, LayerP X := by
+  intro rest
+  induction rest with
+  | nil =>
+    intro L hi hp X hX
+    simp only [takeRev, List.mem_singleton] at hX
+    subst hX
+    exact layerP_append L g (hp L (by simp)) hi
+  | cons P rest ih =>
+    intro L hi hp
+    have stop : ∀ X ∈ L.append g :: P :: rest, LayerP X := by
+      intro X hX
+      rcases List.mem_cons.1 hX with rfl | hX
+      · exact layerP_append L g (hp L (by simp)) hi
+      · exact hp X (List.mem_cons_of_mem _ hX)
+    unfold takeRev
+    by_cases hm : P.isMeas = true
+    · rw [if_pos hm]; exact stop
+    · rw [if_neg hm]
+      by_cases hPi : P.indep g = true
+      · rw [if_pos hPi]
+        intro X hX
+        rcases List.mem_cons.1 hX with rfl | hX
+        · exact hp _ (by simp)
+        · exact ih P hPi (fun Y hY => hp Y (List.mem_cons_of_mem _ hY)) X hX
+      · rw [if_neg hPi]; exact stop
+
+/-- second invariant of a circuit under construction: no compiled backward map, layers as `take` builds them,
+    every gate satisfies `Q` -/
+def Inv2 (Q : Gate → Prop) (c : Circ) : Prop :=
+  c.bmap = none ∧ (∀ L ∈ c.layers, LayerP L) ∧ ∀ h ∈ flatGates c.layers, Q h
+
+theorem inv2_init (Q : Gate → Prop) (N : Nat) : Inv2 Q { N := N } := by
+  refine ⟨rfl, ?_, ?_⟩
+  · intro L hL
+    simp only [List.mem_singleton] at hL
+    exact ⟨[], hL, List.Pairwise.nil⟩
+  · intro h hh; simp [flatGates, layerGates] at hh
+
+theorem take_inv2 (Q : Gate → Prop) (c c' : Circ) (g : Gate) (hI : Inv2 Q c) (hg : Q g)
+    (ht : c.take g = .ok c') : Inv2 Q c' := by
+  obtain ⟨hbm, hp, hq⟩ := hI
+  unfold Circ.take at ht
+  split at ht
+  · cases ht
+  · split at ht
+    · cases ht
+    · cases hrev : c.layers.reverse with
+      | nil => rw [hrev] at ht; cases ht
+      | cons L rest =>
+        have hlay : c.layers = (L :: rest).reverse := by rw [← hrev, List.reverse_reverse]
+        rw [hrev] at ht
+        dsimp only at ht
+        split at ht
+        · rename_i hc
+          rw [Bool.and_eq_true] at hc
+          cases ht
+          have hpR : ∀ X ∈ L :: rest, LayerP X := by
+            intro X hX; apply hp; rw [hlay]; exact List.mem_reverse.2 hX
+          have hpl := takeRev_layerP g rest L hc.2 hpR
+          obtain ⟨_, A, B, e1, e2, _⟩ := takeRev_spec g rest L hc.2 (fun X hX => layerP_plain X (hpR X hX))
+          rw [← hlay] at e1
+          refine ⟨hbm, fun X hX => hpl X (List.mem_reverse.1 hX), ?_⟩
+          intro h hh
+          show Q h
+          change h ∈ flatGates (takeRev (L :: rest) g).reverse at hh
+          rw [e2] at hh
+          rcases List.mem_append.1 hh with hh | hh
+          · exact hq h (by rw [e1]; exact List.mem_append_left _ hh)
+          · rcases List.mem_cons.1 hh with rfl | hh
+            · exact hg
+            · exact hq h (by rw [e1]; exact List.mem_append_right _ hh)
+        · cases ht
+          refine ⟨hbm, ?_, ?_⟩
+          · intro X hX
+            rcases List.mem_append.1 hX with hX | hX
+            · exact hp X hX
+            · simp only [List.mem_singleton] at hX
+              exact ⟨[g], hX, List.pairwise_singleton _ _⟩
+          · intro h hh
+            change h ∈ flatGates (c.layers ++ [Layer.gates [g] none none]) at hh
+            rw [flatGates_append] at hh
+            rcases List.mem_append.1 hh with hh | hh
+            · exact hq h hh
+            · simp [flatGates, layerGates] at hh
+              subst hh; exact hg
+
+theorem fold_inv2 (Q : Gate → Prop) (gsl : List Gate) : ∀ (c0 c : Circ), Inv2 Q c0 →
+    (∀ g ∈ gsl, Q g) → gsl.foldlM (fun c g => c.take g) c0 = .ok c → Inv2 Q c := by
+  induction gsl with
+  | nil =>
+    intro c0 c hI _ h
+    have : c0 = c := by simpa [List.foldlM, pure, Except.pure] using h
+    subst this
+    exact hI
+  | cons g gs ih =>
+    intro c0 c hI hw h
+    rw [List.foldlM_cons] at h
+    cases ht : c0.take g with
+    | error e => rw [ht] at h; cases h
+    | ok c1 =>
+      rw [ht] at h
+      exact ih c1 c (take_inv2 Q c0 c1 g hI (hw g (by simp)) ht) (fun x hx => hw x (by simp [hx])) h
+
+/-- everything known about a circuit built from a program -/
+theorem build_inv (N : Nat) (prog : List Gate) (c : Circ) (Q : Gate → Prop) (hw : ∀ g ∈ prog, g.WF N)
+    (hq : ∀ g ∈ prog, Q g) (hb : buildCirc N prog = .ok c) : Inv N c prog ∧ Inv2 Q c := by
+  constructor
+  · have := fold_inv N prog { N := N } c [] (inv_init N) hw hb
+    simpa using this
+  · exact fold_inv2 Q prog { N := N } c (inv2_init Q N) hq hb
+
+/-- two programs with the same forward action have the same inverse action -/
+theorem seqActInv_unique (as bs : List Gate) (N : Nat) (ha : ∀ g ∈ as, g.WF N) (hb : ∀ g ∈ bs, g.WF N)
+    (h : ∀ P : Pauli, P.g.length = N → PEq (seqAct as N P) (seqAct bs N P)) (P : Pauli) (hP : P.g.length = N) :
+    PEq (seqActInv as N P) (seqActInv bs N P) := by
+  have hl : (seqActInv bs N P).g.length = N := by rw [length_seqActInv]; exact hP
+  have h1 := (program_inverse bs N P hb hP).2
+  have h2 := h (seqActInv bs N P) hl
+  have h3 := (program_inverse as N (seqActInv bs N P) ha hl).1
+  exact (seqActInv_congr as N (h2.trans h1)).symm.trans h3
+
+/-! ## the uncompiled `forward` / `backward` of a circuit built by `take` -/
+
+theorem gate_backward_eq' (g : Gate) (N : Nat) (rows : List Pauli) (rnd : List CMap) (hg : g.WF N)
+    (hb : g.BmapOK) (hr : ∀ R ∈ rows, R.g.length = N) :
+    ∃ g', g.backward N rows rnd = .ok (g', rows.map (gateActInv g N), rnd) := by
+  cases hbm : g.bmap with
+  | none => exact gate_backward_eq g N rows rnd hg hbm hr
+  | some B =>
+    have hg' := hg
+    obtain ⟨h0, hq, hn, hk⟩ := hg
+    have hmask := qMask_eq g.qubits N h0 hq
+    rcases hk with ⟨G, hgen, hGl, hGp⟩ | ⟨hgen, M, hM, hV⟩
+    · refine ⟨g, ?_⟩
+      simp only [Gate.backward, hgen]
+      by_cases hN : g.n = N
+      · rw [if_pos hN]
+        have : rows.map (rotate (neg G)) = rows.map (gateActInv g N) := by
+          apply List.map_congr_left
+          intro R hR
+          rw [gateActInv_full_gen g G N R hg' hgen hN (hr R hR)]
+        rw [this]
+      · rw [if_neg hN, hmask]
+        have : rows.map (rotateMasked (neg G) (maskOf g.qubits N)) = rows.map (gateActInv g N) := by
+          apply List.map_congr_left
+          intro R _
+          simp only [gateActInv, hgen]
+        simp only [this]
+    · obtain ⟨M', hM', hB⟩ := hb hgen B hbm
+      rw [hM] at hM'
+      cases hM'
+      refine ⟨g, ?_⟩
+      simp only [Gate.backward, hgen, hbm, hmask]
+      have : rows.map (transformMasked B (maskOf g.qubits N)) = rows.map (gateActInv g N) := by
+        apply List.map_congr_left
+        intro R _
+        simp only [gateActInv, hgen, hM, hB]
+      rw [this]
+
+theorem gatesBackward_eq (N : Nat) (gs : List Gate) (rows : List Pauli) (rnd : List CMap)
+    (hw : ∀ g ∈ gs, g.WF N ∧ g.BmapOK) (hr : ∀ R ∈ rows, R.g.length = N) :
+    ∃ gs', gatesBackward N gs rows rnd = .ok (gs', rows.map (fwdInv gs N), rnd) := by
+  induction gs generalizing rows with
+  | nil =>
+    have : fwdInv [] N = id := rfl
+    rw [this, List.map_id]; exact ⟨[], rfl⟩
+  | cons g gs ih =>
+    have hr' : ∀ R ∈ rows.map (gateActInv g N), R.g.length = N := by
+      intro R hR
+      obtain ⟨R0, hR0, rfl⟩ := List.mem_map.1 hR
+      rw [length_gateActInv]; exact hr R0 hR0
+    obtain ⟨g', hg'⟩ := gate_backward_eq' g N rows rnd (hw g (by simp)).1 (hw g (by simp)).2 hr
+    obtain ⟨gs', hgs'⟩ := ih (rows.map (gateActInv g N)) (fun x hx => hw x (by simp [hx])) hr'
+    refine ⟨g' :: gs', ?_⟩
+    unfold gatesBackward
+    rw [hg']
+    dsimp only
+    rw [hgs']
+    dsimp only
+    rw [List.map_map]
+    rfl
+
+/-- the action of `backward` over the layers in reverse order: inside a layer the inverse gates in list order -/
+def backAct : List Layer → Nat → Pauli → Pauli
+  | [], _, P => P
+  | L :: Ls, N, P => backAct Ls N (fwdInv (layerGates L) N P)
+
+theorem layersBackward_eq (N : Nat) (Lr : List Layer) (rows : List Pauli) (r : Nat) (s : Bool) (coins : List Bool)
+    (rnd : List CMap) (rec : List Int) (hp : ∀ L ∈ Lr, LayerP L) (hw : ∀ g ∈ flatGates Lr, g.WF N ∧ g.BmapOK)
+    (hr : ∀ R ∈ rows, R.g.length = N) :
+    ∃ Ls', layersBackward N Lr ⟨⟨rows, r, s⟩, coins, rnd⟩ rec =
+      .ok (Ls', ⟨⟨rows.map (backAct Lr N), r, s⟩, coins, rnd⟩) := by
+  induction Lr generalizing rows with
+  | nil =>
+    have : backAct [] N = id := rfl
+    rw [this, List.map_id]; exact ⟨[], rfl⟩
+  | cons L Ls ih =>
+    obtain ⟨gs, rfl, _⟩ := hp L (by simp)
+    have hwg : ∀ g ∈ gs, g.WF N ∧ g.BmapOK := fun g hg => hw g (by rw [flatGates_cons]; simp [layerGates, hg])
+    have hwl : ∀ g ∈ flatGates Ls, g.WF N ∧ g.BmapOK := fun g hg => hw g (by rw [flatGates_cons]; simp [hg])
+    have hr' : ∀ R ∈ rows.map (fwdInv gs N), R.g.length = N := by
+      intro R hR
+      obtain ⟨R0, hR0, rfl⟩ := List.mem_map.1 hR
+      rw [length_fwdInv]; exact hr R0 hR0
+    obtain ⟨gs', hgs'⟩ := gatesBackward_eq N gs rows rnd hwg hr
+    have hL : Layer.backward N (.gates gs none none) ⟨⟨rows, r, s⟩, coins, rnd⟩ none =
+        .ok (.gates gs' none none, ⟨⟨rows.map (fwdInv gs N), r, s⟩, coins, rnd⟩) := by
+      simp only [Layer.backward, hgs']
+    obtain ⟨Ls', hLs'⟩ := ih (rows.map (fwdInv gs N)) (fun X hX => hp X (by simp [hX])) hwl hr'
+    refine ⟨.gates gs' none none :: Ls', ?_⟩
+    unfold layersBackward
+    dsimp only
+    rw [hL]
+    dsimp only
+    rw [hLs']
+    dsimp only
+    rw [List.map_map]
+    rfl
+
+theorem backAct_eq (N : Nat) (Lr : List Layer) (hp : ∀ L ∈ Lr, LayerP L) (P : Pauli) :
+    PEq (backAct Lr N P) (seqActInv (flatGates Lr.reverse) N P) := by
+  induction Lr generalizing P with
+  | nil => exact PEq.refl _
+  | cons L Ls ih =>
+    obtain ⟨gs, rfl, hpw⟩ := hp L (by simp)
+    rw [flatGates_reverse_cons, seqActInv_append]
+    show PEq (backAct Ls N (fwdInv gs N P)) (seqActInv (flatGates Ls.reverse) N (seqActInv gs N P))
+    exact (ih (fun X hX => hp X (by simp [hX])) _).trans
+      (seqActInv_congr _ N (fwdInv_eq_seqActInv gs N P hpw))
+
+theorem forward_exact (N : Nat) (c : Circ) (pre : List Gate) (rows : List Pauli) (r : Nat) (s : Bool)
+    (coins : List Bool) (rnd : List CMap) (hI : Inv N c pre) (hr : ∀ R ∈ rows, R.g.length = N) :
+    c.forward ⟨⟨rows, r, s⟩, coins, rnd⟩ =
+      .ok (c, ⟨⟨rows.map (seqAct (flatGates c.layers) N), r, s⟩, coins, rnd⟩) := by
+  obtain ⟨hN, hu, hf, hp, hw, _⟩ := hI
+  subst hN
+  have e := layersForward_eq c.N c.layers rows r s coins rnd hp hw hr
+  unfold Circ.forward
+  rw [if_pos hu]
+  split
+  · rename_i M hM; rw [hf] at hM; cases hM
+  · rw [e]
+
+theorem backward_exact (N : Nat) (c : Circ) (pre : List Gate) (rows : List Pauli) (r : Nat) (s : Bool)
+    (coins : List Bool) (rnd : List CMap) (hI : Inv N c pre) (hI2 : Inv2 Gate.BmapOK c)
+    (hr : ∀ R ∈ rows, R.g.length = N) :
+    ∃ c', c.backward ⟨⟨rows, r, s⟩, coins, rnd⟩ none =
+      .ok (c', ⟨⟨rows.map (backAct c.layers.reverse N), r, s⟩, coins, rnd⟩) := by
+  obtain ⟨hN, hu, _, _, hw, _⟩ := hI
+  obtain ⟨hbm, hp, hq⟩ := hI2
+  subst hN
+  have hp' : ∀ L ∈ c.layers.reverse, LayerP L := fun L hL => hp L (List.mem_reverse.1 hL)
+  have hw' : ∀ g ∈ flatGates c.layers.reverse, g.WF c.N ∧ g.BmapOK := by
+    intro g hg
+    have : g ∈ flatGates c.layers := by
+      simp only [flatGates, List.mem_flatMap, List.mem_reverse] at hg ⊢
+      exact hg
+    exact ⟨hw g this, hq g this⟩
+  obtain ⟨Ls', e⟩ := layersBackward_eq c.N c.layers.reverse rows r s coins rnd [] hp' hw' hr
+  refine ⟨{ c with layers := Ls'.reverse }, ?_⟩
+  unfold Circ.backward
+  rw [if_pos hu]
+  split
+  · rename_i M hM; rw [hbm] at hM; cases hM
+  · rw [e]
+
+/-! ## forward maps only: no hypothesis on recorded backward maps -/
+
+theorem gate_compile_fwd (g g' : Gate) (N : Nat) (hg : g.WF N) (hc : g.compile = .ok g') :
+    ∃ f b, g'.fmap = some f ∧ g'.bmap = some b ∧ ValidMap f (maskCount (maskOf g.qubits N)) ∧
+      ∀ P : Pauli, P.g.length = N → PEq (transformMasked f (maskOf g.qubits N) P) (gateAct g N P) := by
+  obtain ⟨_, hq, hn, hk⟩ := hg
+  have hk' : maskCount (maskOf g.qubits N) = g.n := maskCount_maskOf g.qubits N hn hq
+  rw [hk']
+  rcases hk with ⟨G, hgen, hGl, hGp⟩ | ⟨hgen, M, hM, hV⟩
+  · simp only [Gate.compile, hgen] at hc
+    cases hc
+    refine ⟨rotationMap G, rotationMap (neg G), rfl, rfl, ?_, ?_⟩
+    · rw [← hGl]; exact rotationMap_valid G hGp
+    · intro P hP
+      have hlg : (gather (maskOf g.qubits N) P.g).length = g.n := by
+        rw [length_gather _ _ (by rw [length_maskOf, hP]; exact Nat.le_refl _), hk']
+      rw [gateAct_eq, gateFun_gen g G hgen, transformMasked_eq_maskedOp]
+      exact maskedOp_congr_fun _ _ _ _ (rotationMap_acts_as_rotate G _ hGp (by rw [hGl]; exact hlg.symm))
+  · have hact : ∀ P : Pauli, P.g.length = N → PEq (transformMasked M (maskOf g.qubits N) P) (gateAct g N P) := by
+      intro P _
+      simp only [gateAct, hgen, hM]; exact PEq.refl _
+    cases hbm : g.bmap with
+    | none =>
+      obtain ⟨B, hB, -, -, -⟩ := inverse_spec M g.n hV
+      simp only [Gate.compile, hgen, hM, hbm, hB] at hc
+      cases hc
+      exact ⟨M, B, rfl, rfl, hV, hact⟩
+    | some B' =>
+      simp only [Gate.compile, hgen, hM, hbm] at hc
+      cases hc
+      exact ⟨M, B', hM, hbm, hV, hact⟩
+
+theorem compileGates_fwd (N : Nat) : ∀ (gs gs' : List Gate) (F B F' B' : CMap),
+    (∀ g ∈ gs, g.WF N) → compileGates N gs F B = .ok (gs', F', B') →
+    ∃ lf, F' = embedAll F lf ∧ List.Forall₂ (Rel N (fun g => gateAct g N)) gs lf := by
+  intro gs
+  induction gs with
+  | nil =>
+    intro gs' F B F' B' _ h
+    simp only [compileGates] at h
+    cases h
+    exact ⟨[], rfl, List.Forall₂.nil⟩
+  | cons g gs ih =>
+    intro gs' F B F' B' hw h
+    have hg := hw g (by simp)
+    have hmask := qMask_eq g.qubits N hg.1 hg.2.1
+    unfold compileGates at h
+    cases hc : g.compile with
+    | error e => rw [hc] at h; cases h
+    | ok g' =>
+      obtain ⟨f, b, hf, hbm, hVf, hact⟩ := gate_compile_fwd g g' N hg hc
+      rw [hc] at h
+      simp only [hmask, hf, hbm] at h
+      cases hrec : compileGates N gs (embed F f (maskOf g.qubits N)) (embed B b (maskOf g.qubits N)) with
+      | error e => rw [hrec] at h; cases h
+      | ok r =>
+        obtain ⟨gs'', F'', B''⟩ := r
+        rw [hrec] at h
+        cases h
+        obtain ⟨lf, e1, r1⟩ := ih gs'' _ _ F' B' (fun x hx => hw x (by simp [hx])) hrec
+        exact ⟨(maskOf g.qubits N, f) :: lf, e1, List.Forall₂.cons ⟨rfl, hVf, hact⟩ r1⟩
+
+theorem compileLayers_fwd (N : Nat) : ∀ (Ls Ls' : List Layer) (F0 B0 F' B' : CMap),
+    (∀ L ∈ Ls, LayerP L) → (∀ g ∈ flatGates Ls, g.WF N) → ValidMap F0 N →
+    compileLayers N Ls F0 B0 = .ok (Ls', F', B') →
+    ValidMap F' N ∧ ∀ P : Pauli, P.g.length = N →
+      PEq (transform F' P) (seqAct (flatGates Ls) N (transform F0 P)) := by
+  intro Ls
+  induction Ls with
+  | nil =>
+    intro Ls' F0 B0 F' B' _ _ hF h
+    simp only [compileLayers] at h
+    cases h
+    exact ⟨hF, fun P _ => PEq.refl _⟩
+  | cons L Ls ih =>
+    intro Ls' F0 B0 F' B' hp hw hF h
+    obtain ⟨gs, rfl, hpw⟩ := hp L (by simp)
+    have hwg : ∀ g ∈ gs, g.WF N := fun g hg => hw g (by rw [flatGates_cons]; simp [layerGates, hg])
+    have hwl : ∀ g ∈ flatGates Ls, g.WF N := fun g hg => hw g (by rw [flatGates_cons]; simp [hg])
+    unfold compileLayers at h
+    cases hcg : compileGates N gs (idMap N) (idMap N) with
+    | error e => simp only [Layer.compile, hcg] at h; cases h
+    | ok r =>
+      obtain ⟨gs', f, b⟩ := r
+      simp only [Layer.compile, hcg] at h
+      obtain ⟨lf, rfl, r1⟩ := compileGates_fwd N gs gs' _ _ f b hwg hcg
+      obtain ⟨hVf, hact⟩ := layer_fold N (fun g => gateAct g N) (fun g P => length_gateAct g N P) gs lf r1 hpw
+      cases hrec : compileLayers N Ls (compose F0 (embedAll (idMap N) lf)) (compose b B0) with
+      | error e => rw [hrec] at h; cases h
+      | ok r2 =>
+        obtain ⟨Ls'', F'', B''⟩ := r2
+        rw [hrec] at h
+        cases h
+        obtain ⟨hV1, hrest⟩ := ih Ls'' _ _ F' B' (fun X hX => hp X (by simp [hX])) hwl
+          (compose_valid F0 _ N hF hVf) hrec
+        refine ⟨hV1, fun P hP => ?_⟩
+        have hlF0 : (transform F0 P).g.length = N :=
+          length_transform F0 N hF.1 (fun R hR => (hF.2.1 R hR).1) P
+        rw [flatGates_cons]
+        show PEq _ (seqAct (gs ++ flatGates Ls) N _)
+        rw [seqAct_append]
+        refine (hrest P hP).trans (seqAct_congr _ N ?_)
+        exact (compose_acts F0 _ N hF hVf P hP).trans (hact _ hlF0)
+
+end Cm
 end PC
